@@ -236,3 +236,32 @@ pub(crate) fn record_dial(namespace: crate::NamespaceId, peer: iroh::PublicKey, 
         None => false,
     })
 }
+
+// ---- H5: control over the age-based automatic commit of the store ------------------------------
+
+thread_local! {
+    /// `None`: no control. `Some((counter, targets))`: accesses are numbered from 0; the ones in
+    /// `targets` see an aged transaction.
+    static AGE_CONTROL: std::cell::RefCell<Option<(u64, Vec<u64>)>> = const { std::cell::RefCell::new(None) };
+}
+
+/// Take control of the automatic commit on this thread: the accesses whose numbers are in
+/// `aged_at` find the open transaction older than `MAX_COMMIT_DELAY`; `None` gives control back.
+pub fn set_age_control(aged_at: Option<Vec<u64>>) {
+    AGE_CONTROL.with(|c| *c.borrow_mut() = aged_at.map(|t| (0, t)));
+}
+
+/// Number of store accesses counted since control was taken.
+pub fn access_count() -> u64 {
+    AGE_CONTROL.with(|c| c.borrow().as_ref().map(|x| x.0).unwrap_or(0))
+}
+
+pub(crate) fn next_access_is_aged() -> Option<bool> {
+    AGE_CONTROL.with(|c| {
+        let mut c = c.borrow_mut();
+        let (counter, targets) = c.as_mut()?;
+        let aged = targets.contains(counter);
+        *counter += 1;
+        Some(aged)
+    })
+}
